@@ -231,6 +231,9 @@ class Expander:
                     cur.inserts.append((key, int(k), text.strip(), sink))
                 elif key == 'rewrite':
                     cur.rewrites.append(arg.split())
+                elif key in ('subst?', 'substall?'):
+                    old, new = arg.split(' => ', 1)
+                    cur.rewrites.append(['R12?' if key == 'subst?' else 'R12ALL?', old.strip(), new.strip()])
                 elif key in ('subst', 'substall'):
                     old, new = arg.split(' => ', 1) if ' => ' in arg else (arg[:-3], '') if arg.endswith(' =>') else (arg, '')
                     cur.rewrites.append(['R12' if key == 'subst' else 'R12ALL', old.strip(), new.strip()])
@@ -260,7 +263,7 @@ class Expander:
                 # optional rule: applied where its pattern occurs, skipped otherwise
                 try:
                     text = rules.apply(name[:-1], text, rw[1:], label)
-                    self.rules_used.add(name[:-1])
+                    self.rules_used.add('R12' if name[:-1] == 'R12ALL' else name[:-1])
                 except LostAnchor:
                     pass
             else:
